@@ -45,9 +45,48 @@ func smtText(o *Oblig, lits []*Term, wantModel bool) string {
 	}
 	b.WriteString("(assert (not " + o.Goal.String() + "))\n(check-sat)\n")
 	if wantModel {
-		b.WriteString("(get-model)\n")
+		ws := witnessTerms(append(append([]*Term{}, o.Hyps...), o.Goal))
+		if len(ws) > 0 {
+			b.WriteString("(get-value (")
+			for i, w := range ws {
+				if i > 0 {
+					b.WriteString(" ")
+				}
+				b.WriteString(w.String())
+			}
+			b.WriteString("))\n")
+		}
 	}
 	return b.String()
+}
+
+// witnessTerms: scalar constants and applications of uninterpreted functions whose values make a counterexample readable.
+func witnessTerms(ts []*Term) []*Term {
+	seen := map[string]bool{}
+	var out []*Term
+	var walk func(t *Term, underQ bool)
+	walk = func(t *Term, underQ bool) {
+		if len(out) > 400 {
+			return
+		}
+		if len(t.Bound) > 0 {
+			return
+		}
+		if (t.Var || (t.UF != nil && len(t.Args) > 0)) && (t.Sort == SInt || t.Sort == SBool) {
+			k := t.String()
+			if !seen[k] && len(k) < 400 {
+				seen[k] = true
+				out = append(out, t)
+			}
+		}
+		for _, a := range t.Args {
+			walk(a, underQ)
+		}
+	}
+	for _, t := range ts {
+		walk(t, false)
+	}
+	return out
 }
 
 func obligQuantFree(o *Oblig, lits []*Term) bool {
@@ -157,6 +196,34 @@ func discharge(o *Oblig, lits []*Term, workDir string, idx int, tsec int, allAgr
 			return v
 		default:
 			v.Output = truncate(out, 2000)
+		}
+	}
+	if nUnsat == 0 && !qf {
+		// undischarged and quantified: look for a candidate counterexample ignoring the quantified hypotheses
+		o2 := *o
+		o2.Hyps = nil
+		for _, h := range o.Hyps {
+			if !hasQuant(h) {
+				o2.Hyps = append(o2.Hyps, h)
+			}
+		}
+		o2.Axioms = nil
+		var l2 []*Term
+		for _, l := range lits {
+			if !hasQuant(l) {
+				l2 = append(l2, l)
+			}
+		}
+		if !hasQuant(o2.Goal) {
+			f2 := file + ".qf.smt2"
+			os.WriteFile(f2, []byte(smtText(&o2, l2, true)), 0o644)
+			first, out, secs := runSolver(backends[0], f2, 5)
+			v.Seconds += secs
+			if first == "sat" {
+				v.Model = out
+				v.Output += "\ncandidate model (quantified hypotheses ignored):\n" + truncate(out, 20000)
+			}
+			os.Remove(f2)
 		}
 	}
 	if allAgree && nUnsat == 3 {
